@@ -10,7 +10,7 @@ from ..transfer_lab import Scenario, UploadFaults, dest_objects, failure_subsets
 RULE = (
     "scenario = generated trees + single files in a source cache; arbitrary initial destination contents (random subset of the "
     "request pre-delivered, plus unrelated objects); request closed or expanded; variants: objects missing from both sides "
-    "(file objects removed from the source), corrupt source objects under verify=True (base-class source); round = one "
+    "(file objects removed from the source), corrupt source objects under verify=True (base-class source); options hardlink on/off, destination opened read-only, a source index whose clear() times out on the failure path (raising = no claim); round = one "
     "upload-failure subset (all subsets when <= 5 objects remain to be sent, sampled otherwise).  TransferResult is compared "
     "with an independent listing of the destination before/after, the upload log and a byte snapshot of the source.  "
     "non-trivial = something was new to the destination; distinct = (scenario content, initial contents, variant, failing subset)"
@@ -22,7 +22,7 @@ ASSUMPTIONS = [
 ]
 MONITORS = "TransferResult vs os.walk listings of the destination before/after, per-oid upload log, source byte snapshot and audit-hook mutation log on the source"
 REQUIRED_COUNTERS = [
-    "rounds_source_vanishes", "corrupt_parseable_dir_objects", "rounds_with_index", "rounds_dest_with_state", "rounds", "rounds_with_failures", "rounds_with_preexisting", "rounds_missing_both_sides", "rounds_verify_corrupt_source",
+    "rounds_with_hardlink_option", "rounds_read_only_destination", "rounds_source_index_clear_fails", "rounds_source_vanishes", "corrupt_parseable_dir_objects", "rounds_with_index", "rounds_dest_with_state", "rounds", "rounds_with_failures", "rounds_with_preexisting", "rounds_missing_both_sides", "rounds_verify_corrupt_source",
     "transferred_objects_checked", "source_snapshots_compared", "rounds_expanded", "rounds_local_dest", "rounds_remote_dest",
 ]
 
@@ -230,8 +230,52 @@ def run_shard(ctx):
                             if os.path.exists(pth):
                                 os.chmod(pth, 0o644)
                                 os.unlink(pth)
+                # option / fault combinations on top of the round
+                hardlink = rng.random() < 0.35
+                info["hardlink"] = hardlink
+                if hardlink:
+                    res.count("rounds_with_hardlink_option")
+                ro_dest = variant == "plain" and not vanished and rng.random() < 0.08
+                if ro_dest:
+                    sc.dest = sc._mk_dest(**{**dcfg, "read_only": True})
+                    info["read_only_destination"] = True
+                    res.count("rounds_read_only_destination")
+                sidx = None
+                if S and not ro_dest and rng.random() < 0.15:
+                    # a source index whose clear() times out (diskcache lock held by another process) on the failure path
+                    from dvc_objects.errors import ObjectDBError as _ODBE
+
+                    from dvc_data.hashfile.db.index import ObjectDBIndex as _Idx
+
+                    sidx = _Idx(os.path.join(d, f"sidx{len(info['failing'])}-{rng.randrange(10**6)}"), "src")
+
+                    def _clear_times_out():
+                        raise _ODBE("Failed to clear ODB index")
+
+                    sidx.clear = _clear_times_out
+                    info["source_index_clear_times_out"] = True
+                    res.count("rounds_source_index_clear_fails")
+                refused = None
                 with Recorder([sc.src_root]) as rec, UploadFaults(sc, S) as uf:
-                    r = transfer(src, sc.dest, ids, jobs=jobs, shallow=shallow, verify=verify, cache_odb=src, validate_status=vs_hook)
+                    try:
+                        r = transfer(src, sc.dest, ids, jobs=jobs, shallow=shallow, verify=verify, cache_odb=src, validate_status=vs_hook,
+                                     hardlink=hardlink, src_index=sidx)
+                    except Exception as e:  # noqa: BLE001
+                        from dvc_objects.errors import ObjectDBError as _ODBE2
+
+                        if not (isinstance(e, _ODBE2) and (ro_dest or sidx is not None)):
+                            raise
+                        refused = e
+                if sidx is not None:
+                    sidx.close()
+                if refused is not None:
+                    # raising makes no claim about what arrived; nothing else to compare in this round
+                    res.count("rounds_refused_loudly")
+                    if ro_dest and dest_objects(sc) != {o: b for o, b in dest_before_master.items()}:
+                        res.violation("read-only-destination-modified", "the transfer raised for a read-only destination but had changed it", case=case, detail=info)
+                    if "state" in dcfg:
+                        dcfg["state"].close()
+                    continue
                 if vanished:
                     info["vanished_from_source"] = sorted(vanished)
                     rec.events[:] = []
